@@ -127,7 +127,11 @@ def main(argv=None):
         if st == "skip":
             out["skips"] += 1
             return
-        out["evaluations"] += 1
+        out["evaluations"] += res.get("evaluations", 1)
+        for sh, nt in res.get("shapes", ()):
+            if nt:
+                out["nontrivial"] += 1
+                shapes.add(sh)
         if res.get("nontrivial"):
             out["nontrivial"] += 1
             if res.get("shape") is not None:
